@@ -311,17 +311,34 @@ def run_W(h, meta, wdir, timeout, mem_gb):
         return r
     # 1. the multiplier-free remainder by CaDiCaL
     others = [q['name'] for q in props if q['name'] != main]
-    cmd = base + ['--sat-solver', 'cadical', w, '--json-ui']
+    # (the property names go on the command line: several CBMC runs when the list would exceed the argument-size limit)
+    chunks, cur, size = [], [], 0
     for q in others:
-        cmd += ['--property', q]
-    rc, out, errt, wallk, st = run(cmd, timeout, mem_gb)
-    if st == 'timeout':
-        r.update(verdict='timeout', detail='side checks timed out', time=time.time() - t0)
-        return r
-    res, status, errs = parse_cbmc_json(out)
-    if res is None:
-        r.update(verdict='error', detail=f'side checks: rc={rc} {errt[-300:]}', time=time.time() - t0)
-        return r
+        if cur and size + len(q) + 12 > 1400000:
+            chunks.append(cur)
+            cur, size = [], 0
+        cur.append(q)
+        size += len(q) + 12
+    chunks.append(cur)
+    res, status, errs = [], 'success', []
+    for ch in chunks:
+        cmd = base + ['--sat-solver', 'cadical', w, '--json-ui']
+        for q in ch:
+            cmd += ['--property', q]
+        rc, out, errt, wallk, st = run(cmd, timeout, mem_gb)
+        if st == 'timeout':
+            r.update(verdict='timeout', detail='side checks timed out', time=time.time() - t0)
+            return r
+        res1, status1, errs1 = parse_cbmc_json(out)
+        if res1 is None:
+            r.update(verdict='error', detail=f'side checks: rc={rc} {errt[-300:]}', time=time.time() - t0)
+            return r
+        res += res1
+        errs += errs1
+        if status1 not in ('success', 'failure'):
+            status = status1            # tool error: reported below
+        elif status1 == 'failure' and status == 'success':
+            status = 'failure'
     c = classify(res)
     r.update(c)
     r['checks'] = c['total'] + 1
